@@ -566,7 +566,29 @@ func (p *pcWorld) send(v *pcVec, to common.Address, data []byte) string {
 }
 
 // tryStack is hx.Try that also keeps the innermost fx-core / dependency frames of a panic (VERIF_STACK=1 prints them)
-var lastStack string
+var lastStack, lastFaultFrame string
+
+// faultFrame: the first non-runtime function after the panic, with its full import path
+func faultFrame(stack string) string {
+	seen := false
+	for _, l := range strings.Split(stack, "\n") {
+		if strings.HasPrefix(l, "\t") || l == "" {
+			continue
+		}
+		if strings.HasPrefix(l, "panic(") {
+			seen = true
+			continue
+		}
+		if !seen || strings.HasPrefix(l, "runtime.") {
+			continue
+		}
+		if i := strings.LastIndexByte(l, '('); i > 0 {
+			l = l[:i]
+		}
+		return l
+	}
+	return ""
+}
 
 func tryStack(f func() error) (res string) {
 	defer func() {
@@ -575,7 +597,9 @@ func tryStack(f func() error) (res string) {
 			if i := strings.IndexByte(msg, '\n'); i >= 0 {
 				msg = msg[:i]
 			}
-			lastStack = panicFrames(string(debug.Stack()))
+			st := string(debug.Stack())
+			lastStack = panicFrames(st)
+			lastFaultFrame = faultFrame(st)
 			res = "panic:" + msg
 		}
 	}()
